@@ -85,6 +85,30 @@ Proof.
   split; [reflexivity | discriminate].
 Qed.
 
+(* ---------------- logger errors ---------------- *)
+
+Lemma no_error_when_decodable lg skip m : logger_errors lg skip DecOk m = false.
+Proof.
+  unfold logger_errors, logger_errors_gen, decode_fails.
+  destruct lg; try reflexivity; rewrite ?andb_false_r; reflexivity.
+Qed.
+
+Lemma only_har_response_capture_errors lg skip cls m :
+  logger_errors lg skip cls m = true ->
+  exists c, lg = LHar c /\ skip = false /\ m_isreq m = false /\ capture_on c m = true
+            /\ compress_active m = true /\ cls <> DecOk.
+Proof.
+  unfold logger_errors, logger_errors_gen, decode_fails.
+  destruct lg as [o|c| |ho dec]; try discriminate.
+  rewrite !andb_true_iff, !negb_true_iff. intros [[[Hs Hr] Hc] [Ha Hcls]].
+  exists c. repeat split; try assumption. intros ->. discriminate.
+Qed.
+
+Lemma skipped_never_errors legacy lg cls m : logger_errors_gen legacy lg true cls m = false.
+Proof.
+  unfold logger_errors_gen. destruct lg; try reflexivity; cbn [negb andb]; rewrite ?andb_false_r; reflexivity.
+Qed.
+
 (* ---------------- witnesses ---------------- *)
 
 Definition ex_chunked : msg :=
@@ -136,3 +160,14 @@ Lemma ex_chunked_roundtrip :
         ++ "0" ++ String CR (String LF "")
         ++ String CR (String LF ""))%string.
 Proof. vm_compute. split; reflexivity. Qed.
+
+Definition ex_gzip_response : msg :=
+  mkMsg false (B "HTTP/1.1 200 OK") [] false 3 [(B "Content-Encoding", B "gzip")] false (B "abc") None.
+
+Lemma har_errors_on_undecodable_body :
+  exists m, wf_b m = true /\ logger_errors (LHar CapOn) false DecFailRead m = true.
+Proof. exists ex_gzip_response. vm_compute. split; reflexivity. Qed.
+
+Lemma legacy_text_logger_errors :
+  exists m, wf_b m = true /\ logger_errors_legacy (LText false true) false DecFailOpen m = true.
+Proof. exists ex_gzip_response. vm_compute. split; reflexivity. Qed.
